@@ -26,6 +26,16 @@ CHECKS = [
      "text": "For the three manifest classes serialize followed by deserialize is proved to hand back the very same payload object with header (type, current version) and compose "
              "section intact and nothing else in the document; the shape of every entry filed by add is the add postcondition (C12); build_file is shown to call json.dump with sorted keys/indent 4.",
      "note": _NOTE + _RT_NOTE},
+    {"id": "C09", "technique": "contract-based deductive verification: pyvc VCs/SMT on the real Images.add (identity scan, refusal, placement, write-log frame, Uniq preservation) over manifests with 0-2 symbolic images + identify_image object/dict lemma + AST clause (add is the only writer)",
+     "text": "Images.add is executed symbolically (header version, cell keys and all identity attributes symbolic): it refuses exactly a bad arch or, from format 1.1 on, an image equal in "
+             "all seven identity attributes to a present one with different checksums; on refusal nothing is written; on success the image is in the addressed cell, every other cell is unchanged and "
+             "identity uniqueness is preserved. identify_image(object) is proved equal to identify_image(serialised dict) for every valid image. Every loaded entry goes through add (AST clause).",
+     "note": _NOTE + "; bounded in the NUMBER of images already in the manifest (0, 1; 2 in thorough), unbounded in their attributes; checksum tables are abstract values; histories/loads bounded"},
+    {"id": "C10", "technique": "contract-based deductive verification: arch clauses of the proved Images.add / Rpms.add contracts + pyvc VCs on Images._add_1_1 (src re-filing) + AST clauses (add is the only writer) + bounded down-converted documents",
+     "text": "Normal return of Images.add/Rpms.add is proved to imply a known, non-source tree arch, with ValueError and no change otherwise; _add_1_1 is proved to re-file a 'src' image under "
+             "every non-src arch of the same variant and nowhere else; no other method stores into the manifests. The rpms 0.3 reader and whole legacy documents are checked against the documented "
+             "mapping on down-converted random manifests (bounded).",
+     "note": _NOTE + "; _add_1_1 proved for a variant with arches {src, A, B} (bounded in number); rpms 0.3 triple loop bounded only"},
     {"id": "C12", "technique": "contract-based deductive verification: pyvc VCs/SMT on Rpms.add, Modules.add, ExtraFiles.add over an ARBITRARY symbolic manifest (functional postcondition, write-log frame, refusal) + rx parse of the module UID pattern",
      "text": "Each add is verified on an arbitrary (unbounded) nested manifest: on success the entry sits under the canonical keys (NEVRA / module UID from the proved parser contracts, used "
              "modularly) with the documented value, every write lies on the addressed chain and upper levels are created only when absent (frame), the RPM list is extended; each refusal raises "
